@@ -1,5 +1,117 @@
 import Model.Placement
+import Proofs.C10Lookup
+import Proofs.C10Simple
+/-!
+# C10 — replica sets for a token equal Cassandra's placement  (property theorems)
+
+Model: `Model/Placement.lean` (namespace `Placement`, mirrors token.go / topology.go),
+specification: `Placement.Spec` (Cassandra's firstTokenIndex / SimpleStrategy / NetworkTopologyStrategy 3.0).
+All theorems quantify over every ring / replication setting / token; the only standing hypothesis on rings is
+`Sorted` (strictly ascending tokens: what `sort.Sort` produces from pairwise distinct tokens).
+-/
 namespace C10
-open Placement
-theorem C10_smoke : rot [1,2,3] 1 = [2,3,1] := by decide
+open Placement C10Lookup C10Simple
+
+/-! ## ring lookup -/
+
+/-- `GetHostForToken` / `replicasFor`: Go's binary search with wrap-around computes Cassandra's
+`firstTokenIndex` (first ring token ≥ t, else index 0) — for every sorted ring and every token. -/
+theorem C10_lookup {β : Type} (ring : List (Int × β)) (t : Int) (hs : Sorted ring) :
+    lookupIdx ring t = Spec.ownerIdx ring t :=
+  lookupIdx_eq_ownerIdx ring t hs
+
+/-- the entry returned is the owner of the range (previous token, token], wrapping around: either its
+token is ≥ t and every earlier token is < t (equal / between / below the smallest), or every ring token
+is < t and it is entry 0 (above the largest). -/
+theorem C10_lookup_owner (ring : List Entry) (t : Int) (hs : Sorted ring) (hne : ring ≠ []) :
+    lookupIdx ring t < ring.length ∧
+    getHostForToken ring t = ring[lookupIdx ring t]? ∧
+    ((t ≤ tokAt ring (lookupIdx ring t) ∧ ∀ k, k < lookupIdx ring t → tokAt ring k < t) ∨
+     (lookupIdx ring t = 0 ∧ ∀ k, k < ring.length → tokAt ring k < t)) := by
+  rw [C10_lookup ring t hs]
+  refine ⟨ownerIdx_lt ring t hne, ?_, ownerIdx_range ring t hne⟩
+  unfold getHostForToken
+  have : ring.length ≠ 0 := by
+    have := List.length_pos_iff.mpr hne; omega
+  rw [if_neg this, C10_lookup ring t hs]
+
+example : getHostForToken [(0, ⟨1, 1, 1⟩), (10, ⟨2, 1, 1⟩)] 11 = some (0, ⟨1, 1, 1⟩) := by decide
+example : getHostForToken [(0, ⟨1, 1, 1⟩), (10, ⟨2, 1, 1⟩)] 10 = some (10, ⟨2, 1, 1⟩) := by decide
+
+/-- the literal Go index arithmetic of both placement loops is the rotation the model walks -/
+theorem C10_walk_order (tokens : List Entry) (i : Nat) (hi : i < tokens.length) :
+    walkIdx tokens i = rot tokens i :=
+  walkIdx_eq_rot tokens i hi
+
+/-! ## SimpleStrategy -/
+
+/-- number of distinct nodes of a ring -/
+def distinctNodes (ring : List Entry) : Nat := (Spec.firsts (ring.map (·.2))).length
+
+/-- for every sorted ring (any number of vnodes), every rf and every lookup token: the replicas the driver
+associates with the token (`replicasFor` on `simpleStrategy.replicaMap`) are Cassandra's:
+the first `rf` distinct nodes clockwise from the owner of the token. -/
+theorem C10_simple (ring : List Entry) (rf : Nat) (t : Int) (hs : Sorted ring) (hne : ring ≠ []) :
+    (replicasFor (simpleReplicaMap rf ring) t).map (·.2) = some (Spec.simple ring rf t) := by
+  rw [replicasFor_simple ring rf t hs hne]
+  simp only [Option.map_some, Option.some.injEq]
+  unfold simpleReplicasAt Spec.simple
+  rw [simpleWalk_init, rot_owner_eq_clockwise ring t hs]
+
+/-- empty ring: no entry (Pick then falls back), Cassandra has no replica either -/
+theorem C10_simple_empty (rf : Nat) (t : Int) :
+    replicasFor (simpleReplicaMap rf []) t = none ∧ Spec.simple [] rf t = [] := by
+  constructor
+  · rfl
+  · simp [Spec.simple, Spec.clockwise, Spec.firsts]
+
+/-- a simple replica list never contains a node twice -/
+theorem C10_simple_nodup (ring : List Entry) (rf : Nat) (t : Int) : (Spec.simple ring rf t).Nodup :=
+  List.Sublist.nodup (List.take_sublist _ _) (nodup_firsts _)
+
+theorem mem_clockwise {β : Type} (ring : List (Int × β)) (t : Int) (x : Int × β) :
+    x ∈ Spec.clockwise ring t ↔ x ∈ ring := by
+  unfold Spec.clockwise
+  simp only [List.mem_append, List.mem_filter, decide_eq_true_eq]
+  constructor
+  · rintro (h | h) <;> exact h.1
+  · intro h
+    by_cases hx : t ≤ x.1
+    · exact Or.inl ⟨h, hx⟩
+    · exact Or.inr ⟨h, by omega⟩
+
+/-- its length is min(rf, number of distinct nodes of the ring) -/
+theorem C10_simple_length (ring : List Entry) (rf : Nat) (t : Int) :
+    (Spec.simple ring rf t).length = min rf (distinctNodes ring) := by
+  unfold Spec.simple distinctNodes
+  rw [List.length_take]
+  congr 1
+  apply length_firsts_congr
+  intro x
+  simp only [List.mem_map]
+  constructor
+  · rintro ⟨e, he, rfl⟩; exact ⟨e, (mem_clockwise ring t e).mp he, rfl⟩
+  · rintro ⟨e, he, rfl⟩; exact ⟨e, (mem_clockwise ring t e).mpr he, rfl⟩
+
+/-- the owner of the token's range comes first (whenever rf > 0) -/
+theorem C10_simple_primary (ring : List Entry) (rf : Nat) (t : Int) (hs : Sorted ring) (hne : ring ≠ [])
+    (hrf : 0 < rf) :
+    (Spec.simple ring rf t).head? = (getHostForToken ring t).map (·.2) := by
+  obtain ⟨hlt, hget, _⟩ := C10_lookup_owner ring t hs hne
+  rw [hget, C10_lookup ring t hs]
+  rw [C10_lookup ring t hs] at hlt
+  unfold Spec.simple
+  rw [← rot_owner_eq_clockwise ring t hs]
+  unfold rot
+  obtain ⟨k, hk⟩ : ∃ k, rf = k + 1 := ⟨rf - 1, by omega⟩
+  have hcons : (List.drop (Spec.ownerIdx ring t) ring ++ List.take (Spec.ownerIdx ring t) ring).map (·.2)
+      = ring[Spec.ownerIdx ring t].2 ::
+        ((List.drop (Spec.ownerIdx ring t + 1) ring ++ List.take (Spec.ownerIdx ring t) ring).map (·.2)) := by
+    rw [List.drop_eq_getElem_cons hlt]; rfl
+  rw [hcons, hk, List.getElem?_eq_getElem hlt]
+  simp only [Spec.firsts, List.take_succ_cons, List.head?_cons, Option.map_some]
+
+example : (replicasFor (simpleReplicaMap 2 [(0, ⟨1, 1, 1⟩), (5, ⟨1, 1, 1⟩), (10, ⟨2, 1, 1⟩)]) 3).map (·.2)
+    = some [⟨1, 1, 1⟩, ⟨2, 1, 1⟩] := by decide
+
 end C10
